@@ -41,7 +41,7 @@ fn follow(content: &[u8], cuts: &[usize], capacity: usize, pause_ms: u64) -> Res
         }
     }
     let mut got = Vec::new();
-    for _ in 0..n { match rx.recv_timeout(Duration::from_secs(5)) { Ok(l) => got.push(l), Err(_) => break } }
+    for _ in 0..n { match rx.recv_timeout(Duration::from_secs(20)) { Ok(l) => got.push(l), Err(_) => break } }
     let _ = std::fs::remove_file(&path);
     if got.len() == n { let _ = reader.join(); }
     let shorten = |v: &Vec<String>| v.iter().map(|l| short(l)).collect::<Vec<_>>();
@@ -99,7 +99,7 @@ fn follow_executor(initial: &[u8], head: bool, appends: &[&[u8]], expected_recor
         loop {
             let mut text = String::new();
             let _ = File::open(out_path).and_then(|mut f| f.read_to_string(&mut text));
-            if text.lines().count() >= expected_records || t0.elapsed() > Duration::from_secs(4) { break; }
+            if text.lines().count() >= expected_records || t0.elapsed() > Duration::from_secs(20) { break; }
             std::thread::sleep(Duration::from_millis(20));
         }
         std::thread::sleep(Duration::from_millis(100));
@@ -108,7 +108,7 @@ fn follow_executor(initial: &[u8], head: bool, appends: &[&[u8]], expected_recor
         f.write_all(b"stop\n").map_err(|e| e.to_string())?;
         drop(f);
         let t1 = std::time::Instant::now();
-        while !worker.is_finished() && t1.elapsed() < Duration::from_secs(4) { std::thread::sleep(Duration::from_millis(20)); }
+        while !worker.is_finished() && t1.elapsed() < Duration::from_secs(20) { std::thread::sleep(Duration::from_millis(20)); }
         if worker.is_finished() { worker.join().map_err(|_| "the executor panicked".to_owned())? } else { Err("the executor did not stop after the interrupt".to_owned()) }
     });
     let _ = std::fs::remove_file(&file);
